@@ -276,10 +276,47 @@ def bounded(tier, seed):
                                 return 'reduce_dim(%s,%s) variable %s: %s' % (d, r, vk, e)
                     return None
                 run.case('C03:reduce_dim string form:%s' % r, (si, d, r), t)
+    # convolve_dim (the command-line form of a convolution along a dimension): values = numpy.convolve(weights, column, mode) along the
+    # axis -- a CONVOLUTION, so asymmetric kernels tell it from a correlation --, new dimension length, other variables unchanged
+    from PseudoNetCDF.core._functions import convolve_dim
+    kernels = [('0.5,0.5', [0.5, 0.5]), ('1,-1', [1., -1.]), ('0.25,0.75', [0.25, 0.75]), ('1,2,3', [1., 2., 3.]), ('2,0,-1,0.5', [2., 0., -1., 0.5])]
+    for si, spec in enumerate(H.file_specs(tier, seed)[:3]):
+        f = H.make_file(P, spec)
+        for d, n, _ in spec['dims']:
+            for mode in ('valid', 'same', 'full'):
+                for ktxt, kw in kernels:
+                    if mode == 'valid' and n < len(kw):
+                        continue
+
+                    def t(f=f, d=d, mode=mode, ktxt=ktxt, kw=kw, n=n):
+                        before = H.snapshot(f)
+                        g = convolve_dim(f, '%s,%s,%s' % (d, mode, ktxt))
+                        w = np.array(kw, 'f')
+                        explen = len(np.convolve(w, np.arange(n), mode=mode))
+                        if len(g.dimensions[d]) != explen:
+                            return 'dimension %s length %d expected %d' % (d, len(g.dimensions[d]), explen)
+                        for vk, v in f.variables.items():
+                            if vk not in g.variables:
+                                return 'variable %s missing from the result' % vk
+                            a = v[...]
+                            if d not in v.dimensions:
+                                e = H.arr_equal(g.variables[vk][...], a)
+                                if e:
+                                    return 'variable %s lacks the dimension but changed: %s' % (vk, e)
+                                continue
+                            if np.ma.is_masked(a) or np.asarray(a).dtype.kind not in 'fiu':
+                                continue      # masked columns / text: outside the documented domain of numpy.convolve
+                            ax = list(v.dimensions).index(d)
+                            exp = np.apply_along_axis(lambda x_: np.convolve(w, x_, mode=mode), ax, np.ma.getdata(a))
+                            got = np.ma.getdata(g.variables[vk][...])
+                            if got.shape != exp.shape or not np.allclose(got.astype('d'), exp.astype(got.dtype).astype('d'), rtol=1e-5, atol=1e-6):
+                                return 'variable %s: not the convolution with weights %s (mode %s) along %s' % (vk, ktxt, mode, d)
+                        return H.same_snapshot(before, H.snapshot(f))
+                    run.case('C03:convolve_dim:%s,%s' % (mode, ktxt), (si, d, mode, ktxt), t)
     return run.result(
-        rule='real applyAlongDimensions / reduce_dim vs numpy.ma reductions (keepdims) and numpy.apply_along_axis on snapshots; unaffected variables '
+        rule='real applyAlongDimensions / reduce_dim / convolve_dim vs numpy.ma reductions (keepdims) and numpy.apply_along_axis on snapshots; unaffected variables '
              'identical; dimension lengths; unlimited flags; order independence of commuting reducers',
-        bound='files of the C01 space; every single dimension x {7 named reducers, 7 callables}; ordered pairs of dimensions x 4 reducer pairs')
+        bound='files of the C01 space; every single dimension x {7 named reducers, 7 callables}; ordered pairs of dimensions x 4 reducer pairs; convolve_dim: 3 modes x 5 kernels (4 asymmetric) on every dimension of 3 files')
 
 
 def bounded_replay(p):
